@@ -88,6 +88,19 @@ def scenario(job: dict[str, Any]) -> dict[str, Any]:
     return out
 
 
+def corpus_parallel_worker(case: dict[str, Any]) -> dict[str, Any]:
+    from harness import corpus as C
+    W.preload()
+    root = scratch("c07c-")
+    try:
+        r = C.parallel_case(case, root)
+    except BaseException as e:  # harness problem with this case: skip it, never a verdict
+        r = {"name": case["name"], "steps": 0, "violation": None, "skipped": "harness error %r" % (e,), "nontrivial": False, "machinery": 0}
+    shutil.rmtree(root, ignore_errors=True)
+    r["file"] = case.get("file", "")
+    return r
+
+
 def main(argv: list[str]) -> int:
     tier, seed, replay = parse_args(argv)
     v = Verdict(PID, tier, seed)
@@ -167,6 +180,25 @@ def main(argv: list[str]) -> int:
     with ProcessPoolExecutor(5) as pex:
         for res in pex.map(scenario, jobs, chunksize=1):
             results.append(res)
+    # ---- the repository's multi-file check cases: -n 2 (free-running) vs sequential, and the cache left behind
+    from harness import corpus as C
+    from harness.common import REPO
+    pcases = []
+    for fn in C.reload_files():
+        for c in C.parse_cases(os.path.join(REPO, "test-data", "unit", fn)):
+            if any(k.endswith(".py") for k in c["files"]):
+                c["file"] = fn
+                pcases.append(c)
+    if tier == "quick":
+        pcases = pcases[::4]
+    presults = []
+    with ProcessPoolExecutor(6) as pex:
+        for res in pex.map(corpus_parallel_worker, pcases, chunksize=2):
+            presults.append(res)
+    for r in presults:
+        if r["violation"]:
+            v.violation("corpus-par:%s::%s:%s" % (r["file"], r["name"], r.get("label", "")), {"kind": "corpus parallel", "file": r["file"], "case": r["name"]},
+                        "%s %s: %s" % (r["file"], r["name"], r["violation"]))
     nruns = sum(len(r["runs"]) for r in results)
     distinct = {json.dumps([[e["ev"], e.get("w"), e.get("ph"), e["sccs"]] for e in run["events"] if e["ev"] in ("submit", "recv")])
                 for r in results for run in r["runs"]}
@@ -191,6 +223,8 @@ def main(argv: list[str]) -> int:
     coverage = {
         "states": states, "transitions": transitions, "traces_validated_against_impl": tv["validated"],
         "evaluations": nruns, "distinct_nontrivial": len(distinct), "scenarios": len(jobs),
+        "corpus_cases_parallel_vs_sequential": sum(1 for r in presults if not r["skipped"]), "corpus_cases_skipped": sum(1 for r in presults if r["skipped"]),
+        "corpus_worker_start_failures": sum(r.get("machinery", 0) for r in presults),
         "rule": "policies derived from TLC simulation behaviours of Parallel.tla (reply order + free-worker choice) and three named policies, x shape "
                 "(diamond, chain, fan) x N x store; each scenario: cold parallel, edit, warm parallel, edit, warm sequential, all-fresh parallel, "
                 "every run compared with a cold sequential build; distinct_nontrivial = distinct real (submit/recv) event sequences observed",
